@@ -168,4 +168,19 @@ theorem date_inf_image_witness :
     BlugeGen.C10.numericRangeBounds (dateEnd negInfBits (some a)) (dateEnd posInfBits none) false true 0#64
         = .ok (minI, maxI) ∧ ¬ inDateInterval (some a) none false true minI := by decide
 
+/-! ## the dictionary walk that `Bluge.Numeric.enumerate` transcribes
+
+`(*termRange).Enumerate` takes a function value and is not translated; its statement skeleton is regenerated
+from /repo on every run and obliged to be the one the reference model `enumerate` (and with it
+`enumerate_steps_bounded`, `rangeMatches_total`) was transcribed from: a plain walk from `startTerm` while
+`next ≤ endTerm`, stepping with `incrementPrefixCoded` under a filter — no step cap, no early exit. -/
+theorem gen_enumerate_walk_is_the_modelled_one :
+    BlugeGen.C10.enumerateSkeleton =
+      ["var rv [][]byte", "next := t.startTerm", "for bytes.Compare(next, t.endTerm) <= 0 {", "if filter != nil {",
+       "if filter(next) {", "rv = append(rv, next)", "}", "next = incrementPrefixCoded(next)", "} else {",
+       "rv = append(rv, next)", "next = incrementBytes(next)", "}", "}", "return rv"] ∧
+    BlugeGen.C10.enumerateAllSkeleton =
+      ["var rv [][]byte", "for _, tri := range tr {", "trie := tri.Enumerate(filter)", "rv = append(rv, trie...)", "}",
+       "return rv"] := by decide
+
 end Bluge.C10
